@@ -290,6 +290,7 @@ def coefficients(ctx):
                      'only on `epsilon_r is None` (any value-dependent '
                      'shortcut changes the operator for those values)',
                      ctx.where(mm, loop))
+            seen |= {'without epsilon_r', 'with epsilon_r'}   # reported
             continue
         seen.add(tag)
         if want is None:
